@@ -33,6 +33,25 @@ fn user_struct_source(trait_src: &str) -> Result<String, String> {
                 let (g, ga, gi) = if lt { ("<'t>", "<'t>", "impl<'t>") } else { ("", "", "impl") };
                 let mut s = String::new();
                 s.push_str("#![allow(unused)]\nuse crate::pv_grammar_trait::*;\nuse parol_runtime::{Result, Token};\n");
+                // user types (C22 "user types"): a token type and a non-terminal type; their Debug output keeps
+                // the tokens visible in the form the C23 monitor extracts
+                s.push_str("#[derive(Clone, Default)]\npub struct UTok(pub String, pub parol_runtime::Span);\nimpl parol_runtime::ToSpan for UTok { fn span(&self) -> parol_runtime::Span { self.1.clone() } }\nimpl parol_runtime::ToSpan for UNt { fn span(&self) -> parol_runtime::Span { parol_runtime::Span::default() } }\nimpl std::fmt::Debug for UTok { fn fmt(&self, f: &mut std::fmt::Formatter<'_>) -> std::fmt::Result { write!(f, \"Token {{ text: {:?} }}\", self.0) } }\nimpl<'t> TryFrom<&Token<'t>> for UTok { type Error = anyhow::Error; fn try_from(t: &Token<'t>) -> std::result::Result<Self, Self::Error> { Ok(UTok(t.text().to_string(), parol_runtime::ToSpan::span(t))) } }\n");
+                s.push_str("#[derive(Clone, Default)]\npub struct UNt(pub String);\nimpl std::fmt::Debug for UNt { fn fmt(&self, f: &mut std::fmt::Formatter<'_>) -> std::fmt::Result { write!(f, \"UNt({})\", self.0) } }\n");
+                for item in &file.items {
+                    let (name, has_lt) = match item {
+                        syn::Item::Struct(st) => (st.ident.to_string(), !st.generics.params.is_empty()),
+                        syn::Item::Enum(en) => (en.ident.to_string(), !en.generics.params.is_empty()),
+                        _ => continue,
+                    };
+                    if name == "ASTType" || name.ends_with("GrammarAuto") {
+                        continue;
+                    }
+                    if has_lt {
+                        s.push_str(&format!("impl<'t> TryFrom<&{name}<'t>> for UNt {{ type Error = anyhow::Error; fn try_from(x: &{name}<'t>) -> std::result::Result<Self, Self::Error> {{ Ok(UNt(format!(\"{{:?}}\", x))) }} }}\n"));
+                    } else {
+                        s.push_str(&format!("impl TryFrom<&{name}> for UNt {{ type Error = anyhow::Error; fn try_from(x: &{name}) -> std::result::Result<Self, Self::Error> {{ Ok(UNt(format!(\"{{:?}}\", x))) }} }}\n"));
+                    }
+                }
                 s.push_str(&format!("#[derive(Debug, Default)]\npub struct PvGrammar{g} {{ pub calls: Vec<(String, String)>, pub comments: Vec<String>, {} }}\n", if lt { "_p: std::marker::PhantomData<&'t str>" } else { "" }));
                 s.push_str(&format!("{gi} PvGrammarTrait{ga} for PvGrammar{ga} {{\n"));
                 for it in &t.items {
@@ -130,6 +149,41 @@ pub fn make_batch(dir: &str, prefix: &str, rng: &mut Rng, want: usize, rep: &mut
         if rng.chance(1, 2) {
             g.states[0].line_comments.push(("//".into(), Quote::Raw));
         }
+        // user types: %t_type, %user_type alias on terminal occurrences, %nt_type, type on a
+        // non-terminal occurrence (conversions are provided by the harness user module)
+        fn set_utype(alts: &mut Alts, rng: &mut Rng, on_terms: bool, ty: &str, only_nt: Option<&str>) {
+            for alt in alts.iter_mut() {
+                for f in alt.iter_mut() {
+                    match f {
+                        Factor::T(_, c) if on_terms && !c.clip && rng.chance(1, 3) => c.utype = Some(ty.to_string()),
+                        Factor::N(n, c) if !on_terms && Some(n.as_str()) == only_nt && rng.chance(2, 3) => c.utype = Some(ty.to_string()),
+                        Factor::Grp(a) | Factor::Opt(a) | Factor::Rep(a) => set_utype(a, rng, on_terms, ty, only_nt),
+                        _ => {}
+                    }
+                }
+            }
+        }
+        let ut_mode = rng.below(8);
+        match ut_mode {
+            0 => g.t_type = Some("crate::pv_grammar::UTok".into()),
+            1 => {
+                g.user_types.push(("UT".into(), "crate::pv_grammar::UTok".into()));
+                for r in g.rules.iter_mut() {
+                    set_utype(&mut r.alts, rng, true, "UT", None);
+                }
+            }
+            2 if g.rules.len() > 1 => {
+                let n = g.rules[rng.range(1, g.rules.len() - 1)].name.clone();
+                g.nt_types.push((n, "crate::pv_grammar::UNt".into()));
+            }
+            3 if g.rules.len() > 1 => {
+                let target = g.rules[rng.range(1, g.rules.len() - 1)].name.clone();
+                for r in g.rules.iter_mut() {
+                    set_utype(&mut r.alts, rng, false, "crate::pv_grammar::UNt", Some(&target));
+                }
+            }
+            _ => {}
+        }
         let par = g.to_par();
         if with_inputs && g.gtype == GType::LALR {
             // C23 wants sentences the parser accepts: grammars whose table needed conflict
@@ -192,7 +246,7 @@ pub fn make_batch(dir: &str, prefix: &str, rng: &mut Rng, want: usize, rep: &mut
             }
         }
         let trait_src = std::fs::read_to_string(format!("{src_dir}/pv_grammar_trait.rs")).unwrap_or_default();
-        let options = format!("minimize_boxed={opt_min} range={opt_range} trim={opt_trim} no_recovery={opt_norec} max_depth={opt_depth} k={k}");
+        let options = format!("user_types={} minimize_boxed={opt_min} range={opt_range} trim={opt_trim} no_recovery={opt_norec} max_depth={opt_depth} k={k}", ["t_type", "user_type_on_terminals", "nt_type", "type_on_non_terminal_occurrence"].get(ut_mode).copied().unwrap_or("none"));
         match user_struct_source(&trait_src) {
             Ok(us) => write(&format!("{src_dir}/pv_grammar.rs"), &us),
             Err(e) => {
@@ -203,7 +257,7 @@ pub fn make_batch(dir: &str, prefix: &str, rng: &mut Rng, want: usize, rep: &mut
         write(&format!("{src_dir}/main.rs"), MAIN_RS);
         write(
             &format!("{cdir}/Cargo.toml"),
-            &format!("[package]\nname = \"{name}\"\nversion = \"0.1.0\"\nedition = \"2024\"\n\n[dependencies]\nparol_runtime = {{ path = \"/repo/crates/parol_runtime\" }}\nscnr2 = \"0.5.2\"\n"),
+            &format!("[package]\nname = \"{name}\"\nversion = \"0.1.0\"\nedition = \"2024\"\n\n[dependencies]\nparol_runtime = {{ path = \"/repo/crates/parol_runtime\" }}\nscnr2 = \"0.5.2\"\nanyhow = \"1\"\n"),
         );
         // inputs for C23
         let mut inputs = vec![];
@@ -454,7 +508,7 @@ pub fn run(ctx: &Ctx, c23: bool) -> i32 {
     let (rule, min) = if c23 {
         ("case = (accepted grammar compiled by rustc in a batch workspace exactly as parol::build::Builder wrote it - parser, trait/AST/adapter - plus a harness user struct that overrides every trait method and records its name and the Debug rendering of its argument; sentence rendered with fixed lexemes); the binary parses the inputs; the action called last is the start symbol's and must be called once (unless the start symbol is recursive); the Token texts found in its argument's Debug output, in order, must equal the input's significant tokens whose terminal is not clipped (clipping is per terminal, member names on some occurrences; optional parts and repetition order are visible in that sequence); a trailing comment must be delivered once; non-trivial = input with >= 3 unclipped tokens; distinct by (grammar, input)", if quick { 60 } else { 1500 })
     } else {
-        ("case = accepted grammar (nested EBNF, helper-name clashes, keyword-like non-terminal names, awkward terminal names, mixed terminals, clipped terminals, member names, LL k = 1..4 and LALR(1)) generated by parol::build::Builder with random options (minimize-boxed-types, range, trim, recovery off, depth limit) into its own crate of a batch workspace together with a harness user struct derived from the generated trait; rustc (cargo build --offline --keep-going, warnings ignored) must compile every member; evaluations = member crates compiled; distinct by grammar text", if quick { 12 } else { 150 })
+        ("case = accepted grammar (nested EBNF, helper-name clashes, keyword-like non-terminal names, awkward terminal names, mixed terminals, clipped terminals, member names, user types (%t_type, %user_type alias on terminal occurrences, %nt_type, type on a non-terminal occurrence; conversions and ToSpan provided by the harness user module), LL k = 1..4 and LALR(1)) generated by parol::build::Builder with random options (minimize-boxed-types, range, trim, recovery off, depth limit) into its own crate of a batch workspace together with a harness user struct derived from the generated trait; rustc (cargo build --offline --keep-going, warnings ignored) must compile every member; evaluations = member crates compiled; distinct by grammar text", if quick { 12 } else { 150 })
     };
     finish(ctx, rep, rule, (min as f64 * ctx.scale) as u64, json!({"batches": nbatches, "members_per_batch": per}), t0.elapsed().as_secs_f64())
 }
